@@ -44,13 +44,13 @@ Qed.
 
 (* on a valid scenario, a case whose recorded observations are the model's own is not a violation *)
 Lemma oracle_accepts_model : forall G E, empty_table_ok E = true ->
-  forall r s nd ops plan d0 os,
+  forall r s nd ops plan d0 rp0 os,
   valid_scenario r s nd ops ->
   scenario Z 0%Z G E FList r s nd ops (prog_of plan) d0 = Ran os ->
   case_violates {| k_form := FList; k_raw := r; k_start := s; k_nd := nd; k_ops := ops; k_d0 := d0;
-                   k_plan := plan; k_obs := IRan os |} = false.
+                   k_rp0 := rp0; k_plan := plan; k_obs := IRan os |} = false.
 Proof.
-  intros G E HE r s nd ops plan d0 os Hv Hs.
+  intros G E HE r s nd ops plan d0 rp0 os Hv Hs.
   destruct (st_runs Z 0%Z G E r s nd ops (prog_of plan) d0 Hv) as [qs [st [H1 [H2 [H3 H4]]]]].
   rewrite H4 in Hs. injection Hs as <-.
   unfold case_violates, ro0. cbn [k_obs k_ops k_raw k_start k_nd].
